@@ -113,18 +113,32 @@ func childC19(args []string) {
 	corpus := c06Corpus(tier, seed)
 	nValid := len(corpus)
 	h := newSshHarness(8)
+	// second harness: cancelled context, nobody receives logins - an emitted
+	// event must be counted all the same
+	hcan := newSshHarness(0)
+	cctx, ccancel := context.WithCancel(context.Background())
+	ccancel()
 	ctx := context.Background()
 	for i := from; i < to; i++ {
 		var pid, msg, form string
+		accepted := false
 		if i < nValid {
 			c := corpus[i]
 			pid, msg, form = pidTokens[i%len(pidTokens)], c.Msg, c.Form
+			accepted = c.Accepted
 		} else {
 			hc := hostileCase(seed, i-nValid)
 			pid, msg, form = hc.PID, hc.Msg, "hostile:"+hc.Class
 		}
 		out.begin(i, msg)
-		o := h.observe(ctx, "direct", pid, msg, "", true)
+		var o sshObs
+		if accepted && i%8 == 5 {
+			o = hcan.observe(cctx, "direct", pid, msg, "", true)
+			out.add("accepted_lines_with_cancelled_context", 1)
+			form += "|cancelled-context"
+		} else {
+			o = h.observe(ctx, "direct", pid, msg, "", true)
+		}
 		out.add("lines", 1)
 		wit := map[string]any{"index": i, "pid": pid, "msg": msg, "delta": o.Delta}
 		if o.Panic != "" {
@@ -188,6 +202,7 @@ func checkC19(r *vlib.Run) int {
 	res := runChildren(r, "mon", "c19", n, (n+47)/48, 10*time.Minute)
 	r.Set("lines_with_event", res.stats["lines_with_event"])
 	r.Set("lines_without_keyword", res.stats["lines_without_keyword"])
+	r.Set("accepted_lines_with_cancelled_context", res.stats["accepted_lines_with_cancelled_context"])
 	r.Set("label_form_pairs_observed", res.distinct.Keys())
 	r.Require(res.stats["lines"] == n, "children did not process every line")
 	r.Require(res.stats["lines_with_event"] > 1000 && res.stats["lines_without_keyword"] > 1000, "too few lines with event / without keyword")
@@ -226,7 +241,22 @@ func c17Name(r *vlib.Rng, addr, port string) (string, string) {
 	case 8:
 		return "a b", "inner-space"
 	case 9:
-		return vlib.PickOne(r, []string{"Invalid user x", "Failed password for y", "Accepted publickey for root", "User root", "ROOT LOGIN REFUSED FROM 1.1.1.1 port 1"}), "other-keyword"
+		return vlib.PickOne(r, []string{"Invalid user x", "Failed password for y", "Accepted publickey for root", "User root", "ROOT LOGIN REFUSED FROM 1.1.1.1 port 1",
+			// a complete message of every other form, as a user name
+			"Authentication key RSA SHA256:abc revoked by file /etc/ssh/revoked_keys",
+			"Error checking authentication key RSA SHA256:abc in revoked keys file /etc/ssh/revoked_keys",
+			"Nasty PTR record \"evil\" is set up for 6.6.6.6, ignoring",
+			"reverse mapping checking getaddrinfo for evil.example [6.6.6.6] failed.",
+			"Address 6.6.6.6 maps to evil.example, but this does not map back to the address.",
+			"maximum authentication attempts exceeded for root from 6.6.6.6 port 1 ssh2",
+			"Authentication refused for root: bad owner or modes for /root/.ssh/authorized_keys",
+			"Certificate invalid: expired",
+			"User root from 6.6.6.6 not allowed because not listed in AllowUsers",
+			"User root not allowed because shell /bin/false does not exist",
+			"Accepted password for root from 6.6.6.6 port 1 ssh2",
+			"ROOT LOGIN REFUSED FROM 6.6.6.6 port 1",
+			"error: Authentication key RSA SHA256:abc revoked by file /x",
+		}), "other-keyword"
 	case 10:
 		return fmt.Sprintf("from %s port %s", addr, port), "same-peer-embedded"
 	case 11:
